@@ -1011,7 +1011,11 @@ impl CompositionGraph {
             })
             .collect::<Vec<_>>()
         {
-            self.remove_node(node);
+            // A dependent node may already have been removed as a dependent
+            // of one of the previously removed nodes.
+            if self.graph.contains_node(node.0) {
+                self.remove_node(node);
+            }
         }
 
         // Remove the node from the graph
